@@ -368,7 +368,7 @@ Qed.
 Definition pos_ok (pk : kind) (pw : bool) (d : box) : bool :=
   match bk d with
   | KTable => is_k KBlock pk && pw
-  | KInlineTable => is_k KInlineBlock pk && pw
+  | KInlineTable => (is_k KInlineBlock pk || is_k KBlock pk) && pw
   | KRowGroup => is_table pk
   | KRow => is_k KRowGroup pk
   | KCell => is_k KRow pk
